@@ -247,15 +247,46 @@ def mkst(st):
     return {c: mkcoef(cj) for c, cj in st}
 
 
+SUR_OBJS: dict = {}  # surrogate objects the caller of the model keeps hold of (per history): tag -> object
+
+
+def reset_objects():
+    SUR_OBJS.clear()
+
+
 def mksur(sj, arity=0):
+    """a surrogate object for the wire form; `"tag": t` = the caller keeps the object, `"alias": t` = the caller passes
+    THAT VERY object again (a new one with the same content when the tagged op is not part of the history)"""
     from mxlpy.surrogates import qss
 
-    return qss.Surrogate(
+    if "alias" in sj and sj["alias"] in SUR_OBJS:
+        return SUR_OBJS[sj["alias"]]
+    obj = qss.Surrogate(
         model=mkmulti(sj["es"], max(len(sj["args"]), arity)),
         args=list(sj["args"]),
         outputs=list(sj["outs"]),
         stoichiometries={f: mkst(st) for f, st in sj["st"]},
     )
+    if "tag" in sj:
+        SUR_OBJS[sj["tag"]] = obj
+    return obj
+
+
+def resolve_aliases(ops):
+    """the history as the Lean model and the oracles read it: objects are values, so passing a kept object again is
+    passing its ORIGINAL content (a model must not write into an object its caller holds)"""
+    tagged, out = {}, []
+    for op in ops:
+        if op[0] in ("add_surrogate", "update_surrogate") and isinstance(op[2], dict) and ("tag" in op[2] or "alias" in op[2]):
+            d = dict(op[2])
+            t, a = d.pop("tag", None), d.pop("alias", None)
+            if a is not None and a in tagged:
+                d = dict(tagged[a])
+            if t is not None:
+                tagged[t] = dict(d)
+            op = [op[0], op[1], d] + list(op[3:])
+        out.append(op)
+    return out
 
 
 def cur_state(m, vals):
